@@ -9,6 +9,7 @@ import Driver.Relay
 import Driver.C16
 import Driver.C13
 import Driver.C10
+import Driver.C07
 
 def main (args : List String) : IO UInt32 := do
   match args with
@@ -23,4 +24,5 @@ def main (args : List String) : IO UInt32 := do
   | ["c16"] => Redproxy.Driver.C16.main; return 0
   | ["c13"] => Redproxy.Driver.C13.main; return 0
   | ["c10"] => Redproxy.Driver.C10.main; return 0
+  | ["c07"] => Redproxy.Driver.C07.main; return 0
   | _ => IO.eprintln "usage: rpmodel <mode>  (cases on stdin, one output line per case on stdout)"; return 2
